@@ -22,7 +22,9 @@ Definition parrQ : parser (arr QS) :=
   if (n <? 0) || (m <? 0) then pfail else
   l <- prep (Z.to_nat (n * m)) pQ ;; pret (@of_list QS n m l).
 Definition earrQ (a : arr QS) : list Z := nr a :: nc a :: flat_map eQ (tabulate a).
-Definition pcrd : parser (option unit) := b <- pbool ;; pret (if b then Some tt else None).
+(* 0 = neither, 1 = rho and theta, 2 = rho alone, 3 = theta alone *)
+Definition pcrd : parser (coordarg unit) :=
+  t <- pZ ;; pret (if t =? 1 then CBoth tt else if t =? 2 then CRhoOnly else if t =? 3 then CThetaOnly else CNone).
 
 Definition run1 (inp : list Z) : list Z :=
   match inp with
@@ -31,19 +33,19 @@ Definition run1 (inp : list Z) : list Z :=
       match pall (opd <- parrQ ;; mask <- parrQ ;; modes <- plist pZ ;; nrm <- pbool ;; crd <- pcrd ;;
                   tbl <- plist pentry ;; pret (opd, mask, modes, nrm, crd, tbl)) rest with
       | Some (opd, mask, modes, nrm, crd, tbl) =>
-          eresult (elist eQ) (zernike_fit is0q (zp (nc mask) tbl) q_solve opd mask modes nrm crd)
+          eresult (elist eQ) (zernike_fit_a is0q (zp (nc mask) tbl) q_solve opd mask modes nrm crd)
       | None => emalformed end
     else if op =? 2 then
       match pall (mask <- parrQ ;; coeffs <- plist pQ ;; nrm <- pbool ;; crd <- pcrd ;;
                   tbl <- plist pentry ;; pret (mask, coeffs, nrm, crd, tbl)) rest with
       | Some (mask, coeffs, nrm, crd, tbl) =>
-          0 :: earrQ (zernike_compose is0q (zp (nc mask) tbl) mask coeffs nrm crd)
+          eresult earrQ (zernike_compose_a is0q (zp (nc mask) tbl) mask coeffs nrm crd)
       | None => emalformed end
     else if op =? 3 then
       match pall (opd <- parrQ ;; mask <- parrQ ;; modes <- plist pZ ;; crd <- pcrd ;;
                   tbl <- plist pentry ;; pret (opd, mask, modes, crd, tbl)) rest with
       | Some (opd, mask, modes, crd, tbl) =>
-          eresult earrQ (zernike_remove is0q (zp (nc mask) tbl) q_solve opd mask modes crd)
+          eresult earrQ (zernike_remove_a is0q (zp (nc mask) tbl) q_solve opd mask modes crd)
       | None => emalformed end
     else emalformed
   | _ => emalformed
